@@ -631,6 +631,10 @@ func (link *LinkBase) setupWorker(w *mgr.WorkerCtx) error {
 		// Add link to peerings.
 		err = link.peering.AddLink(link)
 	}
+	if err == nil {
+		// Use the keys of this handshake for end-to-end traffic with the peer.
+		err = peeringState.commit()
+	}
 	if err != nil {
 		link.Close(func() {
 			w.Warn(
@@ -674,6 +678,10 @@ func (link *LinkBase) handleSetup(mgr *mgr.Manager) (*LinkBase, error) {
 	if err == nil {
 		// Add link to peerings.
 		err = link.peering.AddLink(link)
+	}
+	if err == nil {
+		// Use the keys of this handshake for end-to-end traffic with the peer.
+		err = peeringState.commit()
 	}
 	if err != nil {
 		link.Close(nil)
